@@ -129,8 +129,10 @@ var wireAlt = map[string][][]string{
 	// the generated name: prefix then the number in decimal, by formatting or by concatenation
 	"chord.GenerateAttributes|name": {{"store var<chord.Attribute>.Name <- ", "#0++strconv.FormatUint(p0.Value,10)"}},
 	// the bass of the cmt text: the bass's own interval, printed by its own printer
-	"input.ChordMetaTextMotifier.Modify|bass":   {{"p0.slashSep++note.Degree.String(p1.Chord.Base)"}},
+	"input.ChordMetaTextMotifier.Modify|bass":   {{"p0.slashSep++note.Degree.String(p1.Chord.Base)"}, {"call note.Degree.String(p1.Chord.Base)"}},
 	"astconv.ValuesConverterImpl.Convert|order": {{"call builtin.append(phi", ",[astconv.ValuesConverterImpl.convertValue(p0,p1.Values[i])#0])"}},
+	// the scale handed on is what NewScale answered, whichever way the key got there
+	"cmd.getScale|scale": {{"return op.NewScale(", ")#0;"}},
 }
 
 // wireCount: fact keys that must hold that many times (once for the chord clause, once for the rest clause).
@@ -143,7 +145,7 @@ var wireCount = map[string]int{
 var wireOnly = map[string]string{
 	"astconv.SyllableChordConverter.convertChordDegree|root-store": "store p1.Degree <- ",
 	"astconv.SyllableChordConverter.convertChordDegree|bass-store": "store p1.Base <- ",
-	"cmd.newWriteCmdArgsFromInputInstances|chord-store":            "store var<op.Instance>.Chord <- ",
+	"cmd.newWriteCmdArgsFromInputInstances|chord-store":            "store *.Chord <- ",
 }
 
 // syllableConvertSubsumes: the functions whose data-flow facts are implied when Convert is decided on its whole domain.
@@ -313,13 +315,13 @@ var wireSpecs = []wireSpec{
 	}},
 	{"cmd", "newWriteCmdArgsFromInputInstances", []wireFact{
 		{"chord", []string{"call op.NewChord(p1[i].Chord.Degree,chord.Mapper.GetChord(cmd.newChordMap(p0)#0,p1[i].Chord.Chord)#0,p1[i].Chord.Base)"}, "the played chord is not built from the instance's own degree, looked-up symbol and base"},
-		{"chord-store", []string{"store var<op.Instance>.Chord <- op.NewChord(p1[i].Chord.Degree,chord.Mapper.GetChord(cmd.newChordMap(p0)#0,p1[i].Chord.Chord)#0,p1[i].Chord.Base)"}, "the chord played for an instance is not the one built from that instance's own degree, symbol and base (e.g. it is taken over from the instance before)"},
-		{"values", []string{"store var<op.Instance>.Values <- p1[i].Values"}, "the durations of an instance are not taken over from the input instance"},
-		{"bpm", []string{"store var<op.Instance>.BPM <- p1[i].BPM"}, "the tempo of an instance is not taken over from the input instance"},
-		{"velocity", []string{"store var<op.Instance>.Velocity <- p1[i].Velocity"}, "the dynamic of an instance is not taken over from the input instance"},
-		{"meter", []string{"store var<op.Instance>.Meter <- p1[i].Meter"}, "the meter of an instance is not taken over from the input instance"},
-		{"key", []string{"store var<op.Instance>.Key <- p1[i].Key"}, "the key of an instance is not taken over from the input instance"},
-		{"meta", []string{"store var<op.Instance>.Meta <- p1[i].Meta"}, "the metadata of an instance is not taken over from the input instance"},
+		{"chord-store", []string{"store ", ".Chord <- op.NewChord(p1[i].Chord.Degree,chord.Mapper.GetChord(cmd.newChordMap(p0)#0,p1[i].Chord.Chord)#0,p1[i].Chord.Base)"}, "the chord played for an instance is not the one built from that instance's own degree, symbol and base (e.g. it is taken over from the instance before)"},
+		{"values", []string{"store ", ".Values <- p1[i].Values"}, "the durations of an instance are not taken over from the input instance"},
+		{"bpm", []string{"store ", ".BPM <- p1[i].BPM"}, "the tempo of an instance is not taken over from the input instance"},
+		{"velocity", []string{"store ", ".Velocity <- p1[i].Velocity"}, "the dynamic of an instance is not taken over from the input instance"},
+		{"meter", []string{"store ", ".Meter <- p1[i].Meter"}, "the meter of an instance is not taken over from the input instance"},
+		{"key", []string{"store ", ".Key <- p1[i].Key"}, "the key of an instance is not taken over from the input instance"},
+		{"meta", []string{"store ", ".Meta <- p1[i].Meta"}, "the metadata of an instance is not taken over from the input instance"},
 	}},
 	{"op", "Circle.At", []wireFact{{"member", []string{"return util.Ring.At(p0.r,p1)"}, "a slot of the circle is not handed out as it stands in the ring (a rebuilt member can lose the enharmonic spellings of the slot)"}}},
 	{"op", "Circle.All", []wireFact{{"members", []string{"return util.Ring.All(p0.r)"}, "the circle's members are not listed as they stand in the ring"}}},
@@ -398,6 +400,18 @@ func ruleWire(c *Ctx) {
 					continue
 				}
 			}
+			if ws.pkg == "cmd" && ws.fn == "readFileOrStdinFromArgs" {
+				if problem, n, ok := c.readArgsByFolding(); ok {
+					c.check(problem == "", key, c.pos(fn.Pos()), fname(fn), fmt.Sprintf("%d argument lists folded: a FILE is opened under exactly the name given and handed to the reader, `-`, an empty name and no argument read standard input", n), fname(fn)+": "+problem)
+					continue
+				}
+			}
+			if ws.pkg == "op" && strings.HasPrefix(ws.fn, "Circle.") {
+				if problem, _, ok := c.circleVerdict(); ok && problem == "" {
+					c.ok(key, c.pos(fn.Pos()), fname(fn), "decided by CIRCLEWIRE op.KeyConversionChain.Convert|domain (the conversions folded on the real circle for every key)")
+					continue
+				}
+			}
 			if ws.pkg == "chord" && ws.fn == "GenerateAttributes" && c.generateAttributesDecided() {
 				c.ok(key, c.pos(fn.Pos()), fname(fn), "decided by TAB-ATTRS chord.GenerateAttributes|folded")
 				continue
@@ -432,7 +446,13 @@ func ruleWire(c *Ctx) {
 			// something else on some path - a cached answer, a constant - is not the measurement)
 			if only, ok := wireOnly[key]; ok && found {
 				for _, f := range facts {
-					if strings.HasPrefix(f, only) && !hasFact([]string{f}, nf.has...) {
+					match := strings.HasPrefix(f, only)
+					if pre, suf, star := strings.Cut(only, "*"); star {
+						// any destination that ends in the stated field
+						dest, _, isStore := strings.Cut(f, " <- ")
+						match = isStore && strings.HasPrefix(dest, pre) && strings.HasSuffix(dest+" <- ", suf)
+					}
+					if match && !hasFact([]string{f}, nf.has...) {
 						found = false
 						nf.why += " on every path (another store: " + f + ")"
 					}
@@ -1162,4 +1182,103 @@ func (c *Ctx) parseDegreeByFolding(fn *ssa.Function) (string, int, bool) {
 		}
 	}
 	return "", count, true
+}
+
+// readArgsByFolding decides cmd.readFileOrStdinFromArgs by folding it on argument lists, with os.Open and the reader
+// callback standing in: one FILE argument that is not `-` or empty is opened once, under exactly the name given, and what
+// was opened is handed to the callback; `-`, an empty name and no argument hand something else (standard input) to the
+// callback without opening anything; two arguments are refused without opening anything.
+func (c *Ctx) readArgsByFolding() (string, int, bool) {
+	if c.readArgsFold != nil {
+		return c.readArgsFold.problem, c.readArgsFold.n, c.readArgsFold.ok
+	}
+	p, n, ok := c.readArgsByFoldingUncached()
+	c.readArgsFold = &foldVerdict{p, n, ok}
+	return p, n, ok
+}
+
+func (c *Ctx) readArgsByFoldingUncached() (string, int, bool) {
+	var fn *ssa.Function
+	for _, f := range c.srcFuncs() {
+		if fname(f) == "cmd.readFileOrStdinFromArgs" {
+			fn = f
+		}
+	}
+	if fn == nil || len(fn.Params) != 2 {
+		return "", 0, false
+	}
+	debug := os.Getenv("CRDCHECK_DEBUG") != ""
+	strT := types.Typ[types.String]
+	n := 0
+	for _, args := range [][]string{{"piece.txt"}, {"./a/../b c.TXT"}, {"/abs/Name"}, {"-"}, {""}, {}, {"a", "b"}, {"-", "b"}} {
+		fd := c.newFolder()
+		fd.maxSteps = 20000
+		fd.maxDepth = 10
+		var opened []string
+		var handed []fval
+		const mark = "opened:"
+		fd.lib = func(f *ssa.Function, as []fval) (fval, bool) {
+			if fname(f) == "os.Open" && len(as) == 1 {
+				if as[0].k == nil || as[0].k.Kind() != constant.String {
+					opened = append(opened, "?")
+				} else {
+					opened = append(opened, constant.StringVal(as[0].k))
+				}
+				name := "?"
+				if as[0].k != nil && as[0].k.Kind() == constant.String {
+					name = constant.StringVal(as[0].k)
+				}
+				return fval{tuple: []fval{{k: constant.MakeString(mark + name), t: strT, nonNil: true}, {isNil: true}}}, true
+			}
+			return top, false
+		}
+		fd.dyn = func(call *ssa.Call, as []fval) (fval, bool) {
+			if len(as) == 1 {
+				handed = append(handed, as[0])
+				return fval{isNil: true}, true
+			}
+			return top, false
+		}
+		l := &ListV{T: types.NewSlice(strT)}
+		for _, a := range args {
+			l.Elems = append(l.Elems, &CVal{V: constant.MakeString(a), T: strT})
+		}
+		av := fval{cv: l, t: l.T}
+		if len(args) == 0 {
+			av = fval{isNil: true, t: l.T}
+		}
+		r, err := fd.foldCall(fn, []fval{av, top})
+		if err != nil || !(r.isNil || r.nonNil) || len(fd.failedCalls) > 0 {
+			if debug {
+				fmt.Fprintf(os.Stderr, "readArgsByFolding: %q does not fold: %v %s failed=%v\n", args, err, r.String(), fd.failedCalls)
+			}
+			return "", 0, false
+		}
+		n++
+		what := fmt.Sprintf("with the arguments %q", args)
+		switch {
+		case len(args) > 1:
+			if !r.nonNil || len(opened) > 0 || len(handed) > 0 {
+				return what + " the command is not refused before anything is read", n, true
+			}
+		case len(args) == 1 && args[0] != "-" && args[0] != "":
+			if len(opened) != 1 || opened[0] != args[0] {
+				return fmt.Sprintf("%s the file opened is %q, not the name given (rewriting it first - making it absolute, cleaning it - also rewrites `-`, which then no longer means standard input)", what, opened), n, true
+			}
+			if len(handed) != 1 || handed[0].k == nil || handed[0].k.Kind() != constant.String || constant.StringVal(handed[0].k) != mark+args[0] {
+				return what + " the opened file is not what the reader is handed", n, true
+			}
+			if !r.isNil {
+				return what + " an error is returned although opening and reading succeeded", n, true
+			}
+		default:
+			if len(opened) != 0 {
+				return fmt.Sprintf("%s a file is opened (%q) instead of reading standard input", what, opened), n, true
+			}
+			if len(handed) != 1 || (handed[0].k != nil && handed[0].k.Kind() == constant.String) {
+				return what + " standard input is not what the reader is handed", n, true
+			}
+		}
+	}
+	return "", n, true
 }
